@@ -471,11 +471,11 @@ def _install_where(it):
             return orig(fn, args, kwargs)
         except Signal:
             raise
-        except Exception as exc:
+        except BaseException as exc:  # incl. asyncio.CancelledError
             if getattr(exc, "_symex_bind", False):
                 exc._symex_bind = False  # argument binding failed: attribute it to the caller
                 raise
-            if getattr(exc, "_symex_where", None) is None and not isinstance(fn, Closure):
+            if getattr(exc, "_symex_where", None) is None:
                 try:
                     exc._symex_where = fn.__qualname__
                 except Exception:
